@@ -1,7 +1,7 @@
 """C03 -- scanning follows the RDH chain exactly in every input mode."""
 import random
 
-from .. import core, scangen
+from .. import core, scangen, rawdata
 
 TRUSTED = [
     "Coq 8.16.1 kernel (coqc); vm_compute for witnesses and the batch constant; no native_compute",
@@ -34,6 +34,15 @@ def gen_cases(tier, rng):
                 for skip in (0, 1):
                     flt = scangen.pick_filter(rng, ids)
                     cases.append((scangen.hexline(src, flt, skip, data), "wellframed", pkts, flt, skip))
+    # long runs of packets that do not match the filter (the property: any packet count, 10^5): one matching packet, a run of
+    # 60 000 (thorough: 100 000) header-only packets of another link, matching packets again; also a filter value that is absent
+    nlong = 60000 if tier == "quick" else 100000
+    ra = rawdata.mk_rdh(fee=0x1003, link=3, payload_len=0, stop=1, pages=0)
+    rb = rawdata.mk_rdh(fee=0x2011, link=7, payload_len=0, stop=1, pages=0)
+    longp = [(ra, b"")] + [(rb, b"")] * nlong + [(ra, b""), (rb, b""), (ra, b"")]
+    longd = scangen.serialize(longp)
+    for src, flt, skip in (("file", "link:3", 1), ("pipe", "fee:4099", 0), ("file", "link:9", 1)):
+        cases.append((scangen.hexline(src, flt, skip, longd), "long-run", longp, flt, skip))
     nrand = 60 if tier == "quick" else 1500
     for _ in range(nrand):
         n = rng.choice([1, 2, 3, 4, 6, 10, 30])
@@ -93,7 +102,13 @@ def run(tier, seed):
     cases = fix_skip(gen_cases("thorough" if deep else "quick", rng))
     lines = [c[0] for c in cases]
     impl = core.run_lines(core.HARNESS_BIN, "scan", lines, shards=core.NCPU)
-    model = core.run_lines(core.FPMODEL, "scan", lines, shards=core.NCPU)
+    # the extracted model keeps the input as a list (each read walks it): the long-run cases are compared with the independent
+    # chain walk only
+    msel = [i for i, c in enumerate(cases) if c[1] != "long-run"]
+    mres = core.run_lines(core.FPMODEL, "scan", [lines[i] for i in msel], shards=core.NCPU)
+    model = list(impl)
+    for i, r in zip(msel, mres):
+        model[i] = r
     distinct = set()
     dist = {}
     samples = []
@@ -140,6 +155,6 @@ def run(tier, seed):
     chk.cov["rule"] = ("well-framed streams: packet counts 1,2,3,..,99,100,101,199,200,201,300 (thorough: 400,1000), payload sizes "
                        "0..400 and 5000/9999/10000, 1..12 links/FEE ids interleaved, filters none/link/fee/stave with present and absent "
                        "values, payload loaded/skipped, file and pipe; malformed: truncated, inconsistent offset_to_next / memory_size, "
-                       "random bytes (model vs code only). distinct = (kind, source, filter kind, skip, CDP-count class)")
+                       "random bytes (model vs code only); long-run: one matching packet, 60 000 (100 000) header-only packets of another link, matching packets again, under a link / FEE filter and an absent value, file and pipe (code vs chain walk only). distinct = (kind, source, filter kind, skip, CDP-count class)")
     chk.add_stream("scan", len(cases), distinct, samples, distribution=dist)
     return core.finish(chk, TRUSTED)
